@@ -87,3 +87,16 @@ func Verify(pub [32]byte, msg []byte, sig [64]byte) bool {
 	}
 	return crypto.VerifySignature(crypto.FromECDSAPub(pk), crypto.Keccak256(msg), sig[:])
 }
+
+// TwinSig returns the algebraic twin (r, N-s) of an ECDSA signature: it
+// satisfies the raw ECDSA equation for the same message and key, but one of the
+// two has a "high" s, which the protocol's verifier (go-ethereum
+// VerifySignature) refuses. Nobody needs a key to compute it.
+func TwinSig(sig [64]byte) (out [64]byte) {
+	n := crypto.S256().Params().N
+	s := new(big.Int).SetBytes(sig[32:])
+	s.Sub(n, s)
+	copy(out[:32], sig[:32])
+	s.FillBytes(out[32:])
+	return out
+}
